@@ -262,13 +262,59 @@ def run(rep, tier, seed):
     e1.sweep(rep, cs, monitors_for,
              {"delay": 2 if tier == "thorough" else 1})
     rep.nontrivial += len(table)
+    # the RECORD is the task table the simulation returns: on a subset (FULL
+    # mode, preferring workflows with fractional transfer waits) every row's
+    # start and finish must equal the Task object's
+    def frac(c):
+        return any((e[2] % 2) for w in c["wfs"].values() for e in w["edges"])
+    sub = [x for x in cs if not x[1].get("delay") and frac(x[1])]
+    sub = sub[::max(1, len(sub) // (120 if tier == "thorough" else 24))]
+
+    def tw(i, item):
+        return table_vs_tasks(item[1])
+    tres, _ = engine.parallel_map(tw, sub)
+    for (sc, case), (vs, nfrac) in zip(sub, tres):
+        s_ = rep.scope("FULL-task-table-vs-tasks")
+        s_["cases"] += 1
+        s_["executions"] += 1
+        s_["rows_with_fractional_times"] = s_.get(
+            "rows_with_fractional_times", 0) + nfrac
+        rep.evaluations += 1
+        for clause, cause, det in vs:
+            rep.violation(clause, cause, {"engine": "FULL-table",
+                                          "case": case}, det,
+                          "FULL-task-table-vs-tasks")
     conf = rep.confirm
 
     def confirm(payload):
-        if payload.get("engine") == "E3":
+        if payload.get("engine") in ("E3", "FULL-table"):
             return replay(payload)
         return conf(payload)
     rep.confirm = confirm
+
+
+def table_vs_tasks(case):
+    from .. import run as runmod, full
+    r = runmod.execute(case, (), (), e1.horizon_of(case), light=False)
+    if r.outcome != "returned":
+        return [], 0
+    rows = full.task_rows(r.sim._generate_final_task_data())
+    objs = runmod.task_table(r.sim)
+    vs, nfrac = [], 0
+    for tid, (ast, aft, fin) in objs.items():
+        row = rows.get(str(tid))
+        if ast != int(ast) or aft != int(aft):
+            nfrac += 1
+        if row is None:
+            continue                       # C04's business
+        if row.get("ast") != ast or row.get("aft") != aft:
+            vs.append(("C06.recorded-runtime",
+                       "task-table-differs-from-task",
+                       {"task": str(tid), "table": [row.get("ast"),
+                                                    row.get("aft")],
+                        "task_object": [ast, aft]}))
+            break
+    return vs, nfrac
 
 
 def judge_ingest(c, r):
@@ -294,6 +340,9 @@ def judge_ingest(c, r):
 
 
 def replay(payload):
+    if payload.get("engine") == "FULL-table":
+        return [{"clause": a, "cause": b, "detail": c}
+                for a, b, c in table_vs_tasks(payload["case"])[0]]
     if payload.get("engine") == "E3":
         if payload["kind"] == "ingest":
             vs = judge_ingest(payload, run_ingest(payload))
